@@ -272,6 +272,23 @@ pub fn native_ints(cfg: &RunCfg, extra: &mut Extra) {
                         x.mul_assign_element_wise(ta);
                         set(x == m, "mul_assign_element_wise(a)");
                     }
+                    // midpoint(p, q) = p + (q - p)/2 with the scalar's own (truncating) division
+                    {
+                        let m = pp.midpoint(q);
+                        set([m.x as i128, m.y as i128, m.z as i128] == [p[0] + v[0] / 2, p[1] + v[1] / 2, p[2] + v[2] / 2], "midpoint(p, p + v) = p + v/2");
+                        if (<$T>::MIN as i128) < 0 {
+                            // q - (v/2 truncated towards zero): the difference p - q is negative
+                            let m = q.midpoint(pp);
+                            set(
+                                [m.x as i128, m.y as i128, m.z as i128] == [p[0] + v[0] + (-v[0]) / 2, p[1] + v[1] + (-v[1]) / 2, p[2] + v[2] + (-v[2]) / 2],
+                                "midpoint(p + v, p) = (p + v) + (-v)/2",
+                            );
+                        }
+                        let m2 = p2a.midpoint(p2a + v2a);
+                        set([m2.x as i128, m2.y as i128] == [p[0] + v[0] / 2, p[1] + v[1] / 2], "2-D midpoint");
+                        let m1 = p1a.midpoint(p1a + v1a);
+                        set(m1.x as i128 == p[0] + v[0] / 2, "1-D midpoint");
+                    }
                     let b: i128 = 2 + (p[1].unsigned_abs() % 6) as i128; // 2..7
                     {
                         let tb = t(b);
@@ -335,6 +352,68 @@ pub fn native_ints(cfg: &RunCfg, extra: &mut Extra) {
         "native_integer_points".into(),
         json!({"cases": evals, "types": ["i32", "i64", "u32", "u8", "i8"], "oracle": "i128 component model; additive affine laws and component-wise scaling / division / remainder in every spelling"}),
     );
+}
+
+/// midpoint and centroid of points whose coordinates are close to the end of
+/// the floating-point range (same sign, |x| in [MAX/4, MAX)): p, q and every
+/// quantity of the documented formula p + (q - p)/2 are finite, so the result
+/// must be; allowance 64 eps of max(|p|,|q|) around the exact (p + q)/2
+/// evaluated in double-double.
+pub fn native_range(cfg: &RunCfg, extra: &mut Extra) {
+    use cgv_core::acc::Acc;
+    use cgv_core::dd::Dd;
+    let n = if cfg.tier == Tier::Quick { 2000 } else { 100_000 };
+    let mut acc = Acc::new("c12_midpoint_near_range_end");
+    macro_rules! run {
+        ($T:ty, $tag:expr) => {{
+            for i in 0..n {
+                let mut rng = Rng::for_case(cfg.seed, concat!("c12_range_", $tag), i);
+                let mut p = [0.0 as $T; 3];
+                let mut q = [0.0 as $T; 3];
+                for k in 0..3 {
+                    let sign = if rng.bool() { 1.0 } else { -1.0 };
+                    p[k] = (sign * rng.uniform(0.25, 0.999) * <$T>::MAX as f64) as $T;
+                    q[k] = (sign * rng.uniform(0.25, 0.999) * <$T>::MAX as f64) as $T;
+                }
+                acc.case(concat!($tag, ": coordinates in [MAX/4, MAX), same sign"));
+                let inputs = || json!({"p": p.map(|x| x as f64), "q": q.map(|x| x as f64), "type": $tag, "index": i});
+                let r = cgv_core::fw::catch(|| {
+                    let m3 = Point3::new(p[0], p[1], p[2]).midpoint(Point3::new(q[0], q[1], q[2]));
+                    let m2 = Point2::new(p[0], p[1]).midpoint(Point2::new(q[0], q[1]));
+                    let m1 = Point1::new(p[0]).midpoint(Point1::new(q[0]));
+                    ([m3.x as f64, m3.y as f64, m3.z as f64], [m2.x as f64, m2.y as f64], m1.x as f64)
+                });
+                match r {
+                    Err(pn) => acc.truth(&format!("unexpected panic: {pn}"), false, &inputs),
+                    Ok((m3, m2, m1)) => {
+                        for k in 0..3 {
+                            // exact (p+q)/2 without overflow: p/2 + q/2
+                            let want = Dd::new(p[k] as f64 * 0.5).add(Dd::new(q[k] as f64 * 0.5)).val();
+                            let allowed = 64.0 * (<$T>::EPSILON as f64) * (p[k].abs().max(q[k].abs()) as f64);
+                            acc.check(&format!("{} midpoint[{k}] (Point3)", $tag), m3[k], want, allowed, &inputs);
+                            if k < 2 {
+                                acc.check(&format!("{} midpoint[{k}] (Point2)", $tag), m2[k], want, allowed, &inputs);
+                            }
+                            if k < 1 {
+                                acc.check(&format!("{} midpoint[{k}] (Point1)", $tag), m1, want, allowed, &inputs);
+                            }
+                        }
+                    }
+                }
+                if acc.failed() {
+                    break;
+                }
+            }
+        }};
+    }
+    run!(f64, "f64");
+    run!(f32, "f32");
+    acc.finish(extra, "exact p/2 + q/2 in double-double; allowance 64 eps * max(|p|,|q|)");
+}
+
+pub fn native(cfg: &RunCfg, extra: &mut Extra) {
+    native_ints(cfg, extra);
+    native_range(cfg, extra);
 }
 
 const EP: &[&str] = &[
